@@ -30,6 +30,22 @@ noise_var, the external power and the transmit powers are drawn in every numeric
 arrays, lists, scalars through the P setter), channels and precoders also in integer and
 real dtype.
 
+R15 (distinct values that are merely close): dedicated sessions take ONE object through values of one
+parameter (noise variance, path loss, external path loss, channel matrix, external power, transmit powers,
+precoders, filters) that a tolerant comparison would identify — magnitudes 1e-9 … 1e-20 (all "equal" to 0 and to
+each other for np.isclose), values a relative 1e-6 apart (2.4e9 against 2.4e9 + 2e4), adjacent doubles, values
+that agree to 12 decimals — in scenarios scaled so that the parameter matters: the first-principles reports of
+consecutive steps differ by >= 30 comparison tolerances (margin computed from first principles).  After every step:
+model / first principles / fresh object for exactly that value, and the value the object says it holds is bit for
+bit the value it was given.
+
+R16 (argument identity, buffers refilled in place): a third of the sessions and dedicated same-layout sessions run
+with the caller keeping ONE preallocated array per argument (and one container per per-user sequence), refilled in
+place before every call and overwritten with junk as soon as a setter has taken it; steps in which the object is
+left alone and only the call arguments get new contents; one array object in two roles (calc_SINR(X, X), the same
+array for every user, Nr = Nt = NtE, path loss = external path loss, solver F = full_F = W_H) against first
+principles and against equal-content separate objects.
+
 The oracles evaluate the property on the real code from first principles with scalar
 loops (no matrix products of the form under test): power of the desired stream after
 the filter over the summed powers of every other stream of every user + external
@@ -105,7 +121,21 @@ CLAIM = {
             'reports_depend_on_current_inputs_only + session correspondence/oracle. R14 (258..300 users, 257..300 '
             'streams of one user, 257..300 external sources; 2^16+1 users would need a 4e9-entry channel matrix and '
             'is not run): theorems hold for every K; one case of each per run. calc_shannon_sum_capacity for '
-            'arguments of any shape / container: theorem shannon_sum_any_shape, driver op cap2. The IA solver has no external-power '
+            'arguments of any shape / container: theorem shannon_sum_any_shape, driver op cap2. R15 (distinct values that are merely close: noise variance, path loss, external path '
+            'loss, channel matrix, external power, transmit powers — vector and one power for all —, precoders, filters; '
+            'tiny magnitudes 1e-9..1e-20, relative distance 1e-6, adjacent doubles, equal to 12 decimals; one object '
+            'taken from one value to the next, reports of consecutive steps >= 30 comparison tolerances apart by '
+            'construction; the stored value compared bit for bit): theorems close_values_are_not_identified (the '
+            'model\'s SINR and Q are injective in noise variance / external power: no tolerance, no rounded key, no '
+            'threshold) and setter_takes_effect_for_every_new_value; session correspondence + oracle close-values for '
+            'the code. R16 (one preallocated buffer per argument refilled in place for 2..7 calls on one object, junk '
+            'written into it right after a setter took it, steps that only change the call arguments, one object as F '
+            'and U / as every user\'s precoder / as Nr, Nt and NtE / as path loss and external path loss / as F, full_F '
+            'and W_H, equal-content separate objects, calc_shannon_sum_capacity on a refilled array): theorem '
+            'results_depend_on_contents_at_call_time (a call reads the contents at call time; earlier results are not '
+            'altered by refills); session correspondence + oracles argument-buffers / argument-roles for the code. '
+            'Quick tier: the 257..300-stream scenario has one receive antenna at that user (the larger layout runs in '
+            'the thorough tier). The IA solver has no external-power '
             'parameter: it is compared at the channel object\'s default pe = 1. Fixed in the worktree: the solver '
             'ignored external interference; integer channel + integer pe + noise raised a casting error. A '
             'MultiUserChannelMatrixExtInt with zero external sources is outside the generators (its Nr/Nt slices '
@@ -202,6 +232,11 @@ def mat_close(a, b, rtol=1e-9):
     (a covariance at -150 dBm is compared as strictly as one of order one)"""
     a = np.asarray(a)
     b = np.asarray(b)
+    try:        # (a matrix of Python objects is compared by the numbers it holds; anything else is no matrix)
+        a = a.astype(complex) if a.dtype == object else a
+        b = b.astype(complex) if b.dtype == object else b
+    except (TypeError, ValueError):
+        return False
     if a.shape != b.shape or not (np.all(np.isfinite(a)) and np.all(np.isfinite(b))):
         return False
     if a.size == 0:
@@ -306,9 +341,69 @@ def presented(case):
     return big, F, FJ, U
 
 
-def seq(case, mats):
+# ------------------------------------------------------------------ R16: the caller's own buffers
+_POOL = None        # set while a session with `buffers` runs
+
+
+class Pool:
+    """R16: a caller that keeps ONE preallocated array per argument (role x shape x element type) and refills
+    it in place (`buf[...] = new`) before every call; a per-user sequence is ONE container object holding
+    those same arrays.  What the code under test is handed is therefore always THE SAME OBJECTS with new
+    contents; anything keyed on identity, any reference kept, any work done in place on an argument shows."""
+    JUNK = {'c': 99.0 - 77.0j, 'f': 5.0, 'i': 7, 'u': 7, 'b': True}
+    SETTER_ROLES = ('big', 'Nr', 'Nt', 'NtE', 'pl', 'ple', 'post', 'solF', 'solU', 'P', 'Ns')
+
+    def __init__(self):
+        self.arrays = {}
+        self.containers = {}
+        self.refilled = {}          # role -> how often an EXISTING buffer was given other contents
+        self.scribbled = 0
+
+    @staticmethod
+    def role_of(key):
+        return key[0][0] if isinstance(key[0], tuple) else key[0]
+
+    def array(self, role, a):
+        if not isinstance(a, np.ndarray):
+            return a
+        fortran = a.ndim == 2 and a.flags['F_CONTIGUOUS'] and not a.flags['C_CONTIGUOUS']
+        key = (role, a.shape, a.dtype.str, fortran)
+        b = self.arrays.get(key)
+        if b is None:
+            b = self.arrays[key] = np.empty(a.shape, dtype=a.dtype, order='F' if fortran else 'C')
+        elif a.size and not np.array_equal(a, b):
+            r = self.role_of(key)
+            self.refilled[r] = self.refilled.get(r, 0) + 1
+        b[...] = a
+        return b
+
+    def container(self, role, kind, mats):
+        mats = [self.array((role, k), m) for k, m in enumerate(mats)]
+        key = (role, kind, tuple(id(m) for m in mats))
+        c = self.containers.get(key)
+        if c is None:
+            c = self.containers[key] = list(mats) if kind == 'list' else tuple(mats) if kind == 'tuple' else obj(mats)
+        return c
+
+    def scribble(self, roles=SETTER_ROLES):
+        """the caller goes on using its buffers for something else right after handing them over"""
+        for key, b in self.arrays.items():
+            if self.role_of(key) in roles and b.flags.writeable:
+                b[...] = self.JUNK.get(b.dtype.kind, 0)
+                self.scribbled += 1
+
+
+def pooled(role, a):
+    """`a` itself, or — inside a session with the caller's buffers — the caller's ONE buffer for this argument,
+    refilled in place with the contents of `a`"""
+    return a if _POOL is None else _POOL.array(role, a)
+
+
+def seq(case, mats, role=None):
     """the per-user matrices in the container the case asks for"""
     c = (case.get('present') or {}).get('container') or ('list' if case.get('as_list') else 'objarray')
+    if _POOL is not None and role is not None:
+        return _POOL.container(role, c, mats)
     if c == 'list':
         return list(mats)
     if c == 'tuple':
@@ -516,8 +611,8 @@ def _run_channel(case, jp):
 def eval_channel(ch, case, jp):
     """every quantity the channel object `ch` reports for the scenario `case`"""
     _, F, FJ, U = presented(case)
-    Fs = seq(case, FJ if jp else F)
-    Us = seq(case, U)
+    Fs = seq(case, FJ if jp else F, role='FJ' if jp else 'F')
+    Us = seq(case, U, role='U')
     pe = pe_args(case)
     if by_keyword(case):       # R8: every documented parameter by keyword
         kw = {'pe': pe[0]} if pe else {}
@@ -558,19 +653,21 @@ def sync_solver(sol, case, precoders=True, filters=True):
     public setters"""
     _, F, _, U = presented(case)
     if precoders:
-        pa = p_arg(case)
+        pa = pooled('P', p_arg(case))
         if pa is None:
-            sol.set_precoders(full_F=seq(case, F))
+            sol.set_precoders(full_F=seq(case, F, role='solF'))
         elif np.ndim(pa) == 0 and not isinstance(pa, (list, tuple)):
             sol.P = pa
-            sol.set_precoders(F=seq(case, F))
+            sol.set_precoders(F=seq(case, F, role='solF'))
         else:
-            sol.set_precoders(F=seq(case, F), P=pa)
+            sol.set_precoders(F=seq(case, F, role='solF'), P=pa)
     if filters:
         if case.get('set_W'):
-            sol.set_receive_filters(W=seq(case, U))
+            sol.set_receive_filters(W=seq(case, U, role='solU'))
         else:
-            sol.set_receive_filters(W_H=seq(case, [u.conj().T for u in U]))
+            sol.set_receive_filters(W_H=seq(case, [u.conj().T for u in U], role='solU'))
+    if _POOL is not None:       # R16: the caller re-uses its buffers right away; the solver owns what it was given
+        _POOL.scribble()
 
 
 def eval_solver(sol, ch2, case, synced=True):
@@ -886,6 +983,11 @@ def judge_solver(case, out):
     return None
 
 
+R15_PARAMS = ['noise', 'pl', 'ple', 'big', 'pe', 'P', 'F', 'U']
+R15_KINDS = [(p_, c_) for c_ in ('tiny', 'rel1e-6') for p_ in R15_PARAMS] + \
+            [(p_, c_) for c_ in ('ulp', 'dec12') for p_ in ('noise', 'pl', 'P')]
+R16_ROLES = ['big', 'pl', 'ple', 'post', 'solF', 'solU', 'P', 'F', 'FJ', 'U']
+
 CAP_SHAPES = ['1d', 'scalar', 'npscalar', '0d', '2d', 'column', 'row', '3d', 'list', 'tuple', 'list-of-lists',
               'fortran', 'strided', 'reversed', 'empty', 'empty-2d', 'int', 'float32', 'per-user-arrays',
               'list-of-arrays']
@@ -962,6 +1064,18 @@ def o_capacity(case):
     ref = math.fsum(math.log2(1.0 + x) for x in cap_entries(case))
     if not core.close(float(got), ref, rtol=1e-12, atol=1e-12):
         return ('capacity:' + sh, 'reported %.17g, sum log2(1+x) over all entries %.17g' % (float(got), ref))
+    buf = cap_arg(case)
+    if isinstance(buf, np.ndarray) and buf.dtype.kind == 'f' and buf.flags.writeable and buf.size:
+        # R16: the caller refills the SAME array object and asks again
+        with np.errstate(all='ignore'):
+            misc.calc_shannon_sum_capacity(buf)
+            for factor in (3.0, 0.5):
+                buf[...] = buf * factor
+                got2 = misc.calc_shannon_sum_capacity(buf)
+                ref2 = math.fsum(math.log2(1.0 + float(x)) for x in buf.reshape(-1))
+                if np.ndim(got2) != 0 or not core.close(float(got2), ref2, rtol=1e-12, atol=1e-12):
+                    return ('R16:capacity:refilled-argument:' + sh,
+                            'after the argument array was refilled in place: reported %r, sum log2(1+x) %.17g' % (got2, ref2))
     return None
 
 
@@ -1135,9 +1249,20 @@ def o_index(case):
 def run_session(sess):
     """ONE channel object and ONE IA solver bound to it live through the steps of `sess`; after every
     step every reported quantity is collected.  Returns one record per step with the scenario the object
-    is in at that point (`case`: current raw channel, current path loss, current noise variance, …)."""
-    with np.errstate(all='ignore'):
-        return _run_session(sess)
+    is in at that point (`case`: current raw channel, current path loss, current noise variance, …).
+    `sess['buffers']` (R16): every array argument of every call is the caller's ONE buffer for that argument,
+    refilled in place before the call and overwritten with junk right after a setter took it."""
+    global _POOL
+    pool = Pool() if sess.get('buffers') else None
+    _POOL = pool
+    try:
+        with np.errstate(all='ignore'):
+            out = _run_session(sess)
+    finally:
+        _POOL = None
+    if pool is not None and out:
+        out[-1]['pool'] = {'refilled': dict(pool.refilled), 'scribbled': pool.scribbled}
+    return out
 
 
 def observe(ch, sols, ext):
@@ -1256,14 +1381,17 @@ def run_query(name, ch, sol, c, ext):
     _, F, FJ, U = presented(c)
     pe = pe_args(c)
     k = c['K'] - 1
+
+    def objs(role, mats):       # R16: the caller's one container of its own buffers, when it keeps buffers
+        return obj(mats) if _POOL is None else _POOL.container(role, 'objarray', mats)
     if name == 'calc_SINR':
-        return ch.calc_SINR(obj(F), obj(U), *pe)
+        return ch.calc_SINR(objs('F', F), objs('U', U), *pe)
     if name == 'calc_JP_SINR':
-        return ch.calc_JP_SINR(obj(FJ), obj(U), *pe)
+        return ch.calc_JP_SINR(objs('FJ', FJ), objs('U', U), *pe)
     if name == 'calc_Q':
-        return ch.calc_Q(k, obj(F), *pe)
+        return ch.calc_Q(k, objs('F', F), *pe)
     if name == 'calc_JP_Q':
-        return ch.calc_JP_Q(k, obj(FJ), *pe)
+        return ch.calc_JP_Q(k, objs('FJ', FJ), *pe)
     if name == 'get_Hkl':
         return ch.get_Hkl(k, 0)
     if name == 'get_Hk':
@@ -1318,11 +1446,11 @@ def _run_session(sess):
         K = c['K']
         if c['F'] is None:      # inherited from the previous step (or about to be drawn by randomizeF)
             c['F'] = cur_F
-        Nr = dims_arg(c, c['Nr'])
-        Nt = dims_arg(c, c['Nt'])
-        extra = (dims_arg(c, c['NtE'], scalar_ok=len(c['NtE']) == 1),) if ext else ()
+        Nr = pooled('Nr', dims_arg(c, c['Nr']))
+        Nt = pooled('Nt', dims_arg(c, c['Nt']))
+        extra = (pooled('NtE', dims_arg(c, c['NtE'], scalar_ok=len(c['NtE']) == 1)),) if ext else ()
         if ops['real'] == 'init':
-            ch.init_from_channel_matrix(presented(c)[0], Nr, Nt, k_arg(c), *extra)
+            ch.init_from_channel_matrix(pooled('big', presented(c)[0]), Nr, Nt, k_arg(c), *extra)
         elif ops['real'] == 'randomize':
             ch.set_channel_seed(ops['seed'])
             ch.randomize(Nr, Nt, k_arg(c), *extra)
@@ -1334,17 +1462,20 @@ def _run_session(sess):
         for which in ops.get('setter_order') or ['pl', 'noise', 'post']:     # independent setters, any order
             if which == 'pl':
                 if ops['pl'] == 'set':
+                    pl_, ple_ = pl_args(c)
                     if ext:
-                        ch.set_pathloss(*pl_args(c))
+                        ch.set_pathloss(pooled('pl', pl_), pooled('ple', ple_))
                     else:
-                        ch.set_pathloss(pl_args(c)[0])
+                        ch.set_pathloss(pooled('pl', pl_))
                 elif ops['pl'] == 'none':
                     ch.set_pathloss(None)
             elif which == 'noise':
                 if ops['noise'] == 'set':
                     ch.noise_var = noise_arg(c)
             elif ops.get('post'):
-                ch.set_post_filter(seq(c, presented(c)[3]))
+                ch.set_post_filter(seq(c, presented(c)[3], role='post'))
+        if _POOL is not None:       # R16: the object owns what it was given; the caller's buffers move on
+            _POOL.scribble()
         if sol is None:
             sol = ia.IASolverBaseClass(ch)
         if ops['sol'] != 'sync' and not sol_ok:
@@ -1358,13 +1489,20 @@ def _run_session(sess):
         elif ops['sol'] == 'filters':           # new filters only
             sync_solver(sol, c, precoders=False)
         elif ops['sol'] == 'P':                 # only the power, through the property setter
-            sol.P = p_arg(c)
+            sol.P = pooled('P', p_arg(c))
         elif ops['sol'] == 'randomizeF':        # random unit-norm precoders drawn by the solver itself
             sol._rs.seed(ops['seed'])
-            sol.randomizeF(np.array(c['Ns'], dtype=int), p_arg(c))
+            sol.randomizeF(pooled('Ns', np.array(c['Ns'], dtype=int)), pooled('P', p_arg(c)))
             c['F'] = [enc(np.array(sol.F[k], dtype=complex)) for k in range(K)]
+        if _POOL is not None:
+            _POOL.scribble()
         cur_F = c['F']
         rec = {'case': c, 'ops': ops}
+        if sess.get('r15'):         # what the object says it holds right after the setters
+            rec['stored'] = {'noise_var': ch.noise_var,
+                             'pathloss': None if ch.pathloss is None else np.array(ch.pathloss),
+                             'P': np.array(sol.P), 'F': [np.array(x) for x in sol.F],
+                             'W_H': [np.array(x) for x in sol.W_H]}
         # R7: the second solver gets its own precoders / filters when the layout changed (or first), and is
         # otherwise left alone while the first solver and the channel object are being driven
         lay = (tuple(c['Nr']), tuple(c['Nt']), tuple(c['Ns']))
@@ -1415,7 +1553,7 @@ def _run_session(sess):
                     rec[what + '2'] = eval_channel(ch, c, what == 'jp')
         c2 = second_case(c, F2, U2)
         try:
-            rec['sol2'] = eval_solver(sol2, ch, c2, synced=sync2)
+            rec['sol2'] = None if ops.get('no_sol2') else eval_solver(sol2, ch, c2, synced=sync2)
         except np.linalg.LinAlgError:
             rec['sol2'] = None
         rec['case2'] = c2
@@ -1471,8 +1609,13 @@ def o_session(sess):
     """after EVERY step of the life of one channel object + one solver: every reported quantity equals
     first principles on the CURRENT raw channel / path loss / noise / precoders / filters, and equals what
     a fresh object reports for the same current inputs"""
+    return judge_session(sess, run_session(sess))
+
+
+def judge_session(sess, recs):
+    """what one channel object + solver reported along the session `sess` (`recs` = run_session(sess))"""
     tag = 'extint' if sess['ext'] else 'plain'
-    for i, rec in enumerate(run_session(sess)):
+    for i, rec in enumerate(recs):
         c, ops = rec['case'], rec['ops']
         for rj in rec.get('rejected', []):
             if rj['raised'] is None:
@@ -1541,6 +1684,187 @@ def o_session(sess):
                         d = 'sum capacity %.17g vs %.17g' % (o['cap'], f['cap'])
                     if d is not None:
                         return ('IASolver:differs-from-fresh-object%s' % where, 'step %d: %s' % (i, d))
+    return None
+
+
+# ------------------------------------------------------------------ R15 / R16
+def sinr_fp(case, variant='ic', as_solver=False):
+    """first-principles SINR of every stream of the scenario: {(k, l): value, None for a zero denominator}
+    (`as_solver`: precoders scaled by sqrt(P), external sources at the default power — a proxy of what the
+    solver reports, with the raw filters)"""
+    _, F, FJ, U = arrays(case)
+    Fc = [np.asarray(x, dtype=complex) for x in (FJ if variant == 'jp' else F)]
+    pe = pe_value(case)
+    if as_solver:
+        pv = p_values(case)
+        Fc = [Fc[k] * (1.0 if pv is None else math.sqrt(pv[k])) for k in range(case['K'])]
+        pe = pe_value(dict(case, pe=None))
+    Uc = [np.asarray(x, dtype=complex) for x in U]
+    fp = fp_streams(case, variant, Fc, Uc, pe, noise_value(case))
+    return {kl: (sg / d if d else None) for kl, (sg, d) in fp.items()}
+
+
+def fp_margin(a, b):
+    """by how many comparison tolerances (of sinr_close) two first-principles reports differ, at the stream
+    where they differ most"""
+    m = 0.0
+    for kl in a:
+        x, y = a[kl], b.get(kl)
+        if x is None or y is None:
+            continue
+        top = max(abs(x), abs(y))
+        m = max(m, abs(x - y) / (1e-9 * max(top, 1e-300) * (1.0 + top) + 1e-18))
+    return m
+
+
+def stored_mismatch(c, st, ext):
+    """R15: what the objects say they hold (`st`) against what the setters were given, EXACTLY (no arithmetic
+    lies between the two; a value one ulp away from the previous one is a new value)"""
+    K = c['K']
+    nv = noise_value(c)
+    got = st['noise_var']
+    if (got is None) != (nv is None) or (nv is not None and float(got) != nv):
+        return ('noise_var', 'noise_var reads %r after it was set to %r' % (got, nv))
+    if c['pl'] is None:
+        if st['pathloss'] is not None:
+            return ('pathloss', 'a path loss is stored, none was set')
+    else:
+        want = np.array(c['pl'], dtype=float).reshape(K, K)
+        if ext:
+            want = np.hstack([want, np.array(c['ple'], dtype=float).reshape(K, len(c['NtE']))])
+        if st['pathloss'] is None or st['pathloss'].shape != want.shape or not np.array_equal(st['pathloss'], want):
+            return ('pathloss', 'the stored path loss is not the matrix that was set last')
+    pv = p_values(c)
+    _, F, _, U = arrays(c)
+    if pv is not None:
+        if not np.array_equal(st['P'], np.array(pv, dtype=float)):
+            return ('P', 'P reads %r after it was set to %r' % (st['P'].tolist(), pv))
+        for k in range(K):
+            if not np.array_equal(st['F'][k], np.asarray(F[k], dtype=complex)):
+                return ('F', 'the stored precoder of user %d is not the one handed over last' % k)
+    for k in range(K):
+        if not np.array_equal(st['W_H'][k], np.asarray(U[k], dtype=complex).conj().T):
+            return ('W_H', 'the stored receive filter of user %d is not the one handed over last' % k)
+    return None
+
+
+def o_close(sess):
+    """R15: ONE channel object + solver taken through values of one parameter that are DISTINCT but merely close
+    (tiny magnitudes that `np.isclose` identifies with 0 and with each other; values a relative 1e-6 apart;
+    adjacent doubles; values that differ beyond the 12th decimal).  After every step every report is first
+    principles / the model / a fresh object for exactly THAT value, and the value the objects say they hold is
+    bit for bit the value the setter was given"""
+    param, kind = sess['r15']
+    where = 'R15:%s:%s:' % (param, kind)
+    recs = run_session(sess)
+    r = judge_session(sess, recs)
+    if r is not None:
+        return (where + r[0], r[1])
+    for i, rec in enumerate(recs):
+        if rec.get('stored') is not None:
+            bad = stored_mismatch(rec['case'], rec['stored'], sess['ext'])
+            if bad:
+                return (where + 'setter-did-not-take-the-value:' + bad[0], 'step %d: %s' % (i, bad[1]))
+    return None
+
+
+def o_buffers(sess):
+    """R16 (i) + (iii): the session of o_session, with every array argument of every call being the caller's ONE
+    buffer for that argument — refilled in place before the call, overwritten with junk as soon as a setter has
+    taken it.  Reports depend on the contents at call time only: first principles / fresh object on the current
+    contents after every step, earlier results untouched"""
+    r = judge_session(sess, run_session(dict(sess, buffers=True)))
+    return None if r is None else ('R16:caller-buffers:' + r[0], r[1])
+
+
+def o_roles(case):
+    """R16 (ii) + (iv): ONE array object in two roles — the same container of the same arrays as precoders AND
+    as receive filters (`calc_SINR(X, X)`; K = 1: `calc_JP_SINR(X, X)`), one array object as the precoder of
+    every user, one integer array as Nr, Nt (and NtE), one matrix as path loss and external path loss, the
+    solver given `F=X, full_F=X` and `W_H=X` — against first principles on the contents, and against the same
+    calls made with equal-content but separate objects.  Nothing handed over is changed."""
+    mu, ia, _ = _impl()
+    K, ext = case['K'], case['ext']
+    tag = 'extint' if ext else 'plain'
+    with np.errstate(all='ignore'):
+        big = np.array(dec(case['big']), dtype=complex)
+        N = np.array(case['Nr'], dtype=int)
+        X = [np.array(dec(x), dtype=complex) for x in case['F']]
+        if case.get('shared_user_array'):
+            X = [X[0]] * K
+        Xc = list(X) if case.get('as_list') else obj(X)
+        p = None if case['pl'] is None else np.array(case['pl'], dtype=float).reshape(K, K)
+        snap = {'X': [np.array(x) for x in X], 'N': np.array(N), 'p': None if p is None else np.array(p),
+                'big': np.array(big)}
+
+        def copies():
+            return obj([np.array(x) for x in snap['X']])
+
+        def build(same):
+            ch = mu.MultiUserChannelMatrixExtInt() if ext else mu.MultiUserChannelMatrix()
+            if same:
+                ch.init_from_channel_matrix(big, N, N, K, *((N,) if ext else ()))
+                if p is not None:
+                    ch.set_pathloss(*((p, p) if ext else (p,)))
+            else:
+                ch.init_from_channel_matrix(np.array(big), np.array(N), np.array(N), K,
+                                            *((np.array(N),) if ext else ()))
+                if p is not None:
+                    ch.set_pathloss(*((np.array(p), np.array(p)) if ext else (np.array(p),)))
+            ch.noise_var = noise_arg(case)
+            return ch
+
+        def intact(when):
+            for k in range(K):
+                if not np.array_equal(X[k], snap['X'][k]):
+                    return ('R16:shared-argument-modified:X:' + tag, 'array of user %d %s' % (k, when))
+            if not np.array_equal(N, snap['N']) or not np.array_equal(big, snap['big']):
+                return ('R16:shared-argument-modified:N-or-channel:' + tag, when)
+            if p is not None and not np.array_equal(p, snap['p']):
+                return ('R16:shared-argument-modified:pathloss:' + tag, when)
+            return None
+        ch, ch2 = build(True), build(False)
+        pe = pe_args(case)
+
+        def ask(c_, F_, U_, jp):
+            sm, qm = (c_.calc_JP_SINR, c_.calc_JP_Q) if jp else (c_.calc_SINR, c_.calc_Q)
+            sr = call_guard(lambda: sm(F_, U_, *pe))
+            if sr[0] == 'ok':
+                sr = ('ok', [[float(x) for x in r] for r in sr[1]])
+            return sr, [qm(k, F_, *pe) for k in range(K)]
+        for jp in ((False, True) if K == 1 else (False,)):
+            name = 'calc_JP_SINR' if jp else 'calc_SINR'
+            same = ask(ch, Xc, Xc, jp)
+            r = judge_channel(case, jp, *same)
+            if r is not None:
+                return ('R16:same-object-as-F-and-U:%s:%s' % (name, r[0]), r[1])
+            r = intact('after %s(X, X)' % name)
+            if r:
+                return r
+            d = same_reports(same, ask(ch2, copies(), copies(), jp))
+            if d is not None:
+                return ('R16:same-object-vs-equal-copies:%s:%s' % (name, tag), d)
+        # the solver: the same container as F, as full_F (no power vector: P = 1) and as W_H
+        sol = ia.IASolverBaseClass(ch)
+        sol.set_precoders(F=Xc, full_F=Xc)
+        sol.set_receive_filters(W_H=Xc)
+        cs = dict(case, P=None, ptype='float', set_W=False, U=[enc(x.conj().T) for x in snap['X']])
+        try:
+            out = eval_solver(sol, ch2, cs)
+        except np.linalg.LinAlgError:
+            out = None
+        r = judge_solver(cs, out)
+        if r is not None:
+            return ('R16:same-object-as-F-full_F-and-W_H:' + r[0], r[1])
+        r = intact('after the solver was given X as F, full_F and W_H')
+        if r:
+            return r
+        if isinstance(out, dict):
+            f = run_solver(cs)
+            if isinstance(f, dict):
+                d = same_reports((out['sinr'], out['Q']), (f['sinr'], f['Q']))
+                if d is not None:
+                    return ('R16:same-object-vs-equal-copies:IASolver:' + tag, d)
     return None
 
 
@@ -1678,6 +2002,9 @@ def o_immutable(case):
 
 
 ORACLES = {
+    'close-values': o_close,
+    'argument-buffers': o_buffers,
+    'argument-roles': o_roles,
     'session': o_session,
     'immutability': o_immutable,
     'index-arguments': o_index,
@@ -2003,7 +2330,10 @@ class Gen:
         rng = self.rng
         n = rng.choice([257, 258, 300])
         if which == 'many-streams':
-            c = self.case(kind='gauss', K=2, dims=([2, 3], [3, 2], [n, 2]), retype=False)
+            # (quick tier: one receive antenna at the many-stream user — the compiled model re-evaluates V V^H
+            # for every entry of every stream's covariance matrix, which costs ~40 s for the larger layout)
+            dims = ([1, 2], [2, 1], [n, 1]) if self.tier == 'quick' else ([2, 3], [3, 2], [n, 2])
+            c = self.case(kind='gauss', K=2, dims=dims, retype=False)
         else:
             c = self.case(kind='gauss', ext=True, K=2, dims=([2, 1], [1, 2], [1, 2]), NtE=[1] * n, retype=False)
             if c['pl'] is not None:
@@ -2036,7 +2366,245 @@ class Gen:
         c['present']['idx'] = 'bigint'
         return c
 
-    def session(self, n_steps=None, ext=None):
+    # ---------------------------------------------------------------- R15: distinct values that are merely close
+    def close_real(self, v, closeness):
+        """another legitimate value of a real parameter that a tolerant comparison would take for `v`"""
+        rng = self.rng
+        v = float(v)
+        if closeness == 'tiny':         # both far below atol = 1e-8: "equal" to each other and to 0
+            return v * rng.choice([0.1, 0.2, 0.3, 3.0, 5.0, 10.0])
+        if closeness == 'rel1e-6':      # inside rtol = 1e-5
+            return v * (1.0 + rng.choice([-1.0, 1.0]) * rng.uniform(1.2e-6, 5e-6))
+        if closeness == 'ulp':          # the adjacent double
+            return float(np.nextafter(v, math.inf if rng.chance(0.5) else -math.inf))
+        if closeness == 'dec12':        # the same up to the 12th decimal (and beyond the 12th significant digit)
+            w = v * (1.0 + rng.choice([-1.0, 1.0]) * rng.uniform(2e-14, 4e-14))
+            return w if w != v else float(np.nextafter(v, math.inf))
+        raise KeyError(closeness)
+
+    def close_complex(self, a, closeness):
+        a = np.asarray(a, dtype=complex)
+        if closeness == 'tiny':         # an unrelated matrix of the same (tiny) magnitude
+            sc = float(np.sqrt(np.mean(np.abs(a) ** 2))) if a.size else 0.0
+            return self.cmat(a.shape[0], a.shape[1], 'gauss') * sc
+        d = self.np.uniform(1.2e-6, 5e-6, size=a.shape) * self.np.choice([-1.0, 1.0], size=a.shape)
+        return a * (1.0 + d)
+
+    def r15_session(self, param, closeness, n_steps=3, scalar_P=False, deep=True):
+        """ONE channel object + solver; the steps differ from one another in ONE parameter only, by a value that
+        is distinct but merely close (`closeness`: tiny / rel1e-6 / ulp / dec12).  The scenario is scaled so that
+        the parameter matters (noise comparable with the received powers, SINRs of order one): for `tiny` and
+        `rel1e-6` the first-principles reports of consecutive steps differ by >= 30 comparison tolerances (the
+        margin is computed from first principles and recorded), otherwise the scenario is drawn again.
+        `scalar_P`: one power for all users, given through the P setter (then `set_precoders(F=…)` is called
+        without a power vector).  `deep` (closeness tiny): magnitudes 1e-12 … 1e-15 instead of 1e-9 … 1e-12."""
+        rng = self.rng
+        ext = param in ('ple', 'pe') or rng.chance(0.4)
+        for _attempt in range(40):
+            c = self.case(kind='gauss', ext=ext, solver_ok=True, K=rng.choice([2, 2, 3]), retype=False)
+            K = c['K']
+            c['dtype'] = 'complex'
+            c['P'] = [10.0 ** rng.uniform(-0.5, 0.5) for _ in range(K)]
+            c['ptype'] = 'float'
+            c['noise'] = 10.0 ** rng.uniform(-0.5, 0.5)
+            if ext and param == 'pe':
+                c['pe'] = 10.0 ** rng.uniform(-0.5, 0.5)
+            if param in ('pl', 'ple') and c['pl'] is None:
+                c['pl'] = [[10.0 ** rng.uniform(-1, 0.3) for _ in range(K)] for _ in range(K)]
+                c['ple'] = [[10.0 ** rng.uniform(-1, 0.3) for _ in c['NtE']] for _ in range(K)]
+
+            def mul(f, a):
+                c[f] = [enc(dec(x) * a) for x in c[f]]
+            if closeness == 'tiny':
+                # `deep`: two to three decades further down (also below what a key rounded to 9 decimals resolves)
+                dd = -2.5 if deep else 0.0
+                if param in ('noise', 'pl', 'ple'):     # -115 … -155 dB links, thermal-noise-sized noise
+                    c['pl'] = [[10.0 ** rng.uniform(-13 + dd, -11.5 + dd) for _ in range(K)] for _ in range(K)]
+                    c['ple'] = [[10.0 ** rng.uniform(-13 + dd, -11.5 + dd) for _ in c['NtE']] for _ in range(K)]
+                    c['noise'] = 10.0 ** rng.uniform(-12.5 + dd, -11.5 + dd)
+                elif param == 'big':                    # the path loss folded into the channel matrix
+                    e = rng.uniform(-10, -9) + dd
+                    c['pl'] = c['ple'] = None
+                    c['big'] = enc(dec(c['big']) * 10.0 ** e)
+                    c['noise'] = 10.0 ** (2 * e + rng.uniform(-0.5, 0.5))
+                elif param == 'pe':
+                    mul('F', 10.0 ** (-5 + dd / 2))
+                    mul('FJ', 10.0 ** (-5 + dd / 2))
+                    c['pe'] = 10.0 ** rng.uniform(-10.5 + dd, -9.5 + dd)
+                    c['noise'] = 10.0 ** rng.uniform(-10.5 + dd, -9.5 + dd)
+                elif param == 'P':
+                    c['P'] = [10.0 ** rng.uniform(-10.5 + dd, -9.5 + dd) for _ in range(K)]
+                    c['noise'] = 10.0 ** rng.uniform(-10.5 + dd, -9.5 + dd)
+                elif param == 'F':
+                    e = rng.uniform(-10, -9) + dd
+                    mul('F', 10.0 ** e)
+                    mul('FJ', 10.0 ** e)
+                    c['noise'] = 10.0 ** (2 * e + rng.uniform(-0.5, 0.5))
+                elif param == 'U':
+                    mul('U', 10.0 ** (rng.uniform(-10, -9) + dd))
+            elif closeness == 'rel1e-6':
+                if param == 'noise':                    # 2.4e9 against 2.4e9 + 2e4
+                    a = 10.0 ** rng.uniform(4.5, 4.8)
+                    c['big'] = enc(dec(c['big']) * a)
+                    c['noise'] = c['noise'] * a * a
+                elif param == 'P':
+                    c['P'] = [10.0 ** rng.uniform(3, 4) for _ in range(K)]
+                    c['noise'] = c['noise'] * 3e3
+            else:
+                if param == 'noise':
+                    c['noise'] = rng.choice([0.3, 0.1, 0.7, 1.0 / 3.0, 2.4e9, 4e-12])
+            if scalar_P:
+                c['P'] = [c['P'][0]] * K
+                c['ptype'] = 'scalar:float'
+            steps = [{'case': c, 'ops': {'real': 'init', 'seed': 0, 'pl': 'set' if c['pl'] is not None else 'keep',
+                                         'noise': 'set', 'post': False, 'sol': 'sync', 'order': ['ic', 'jp', 'sol']}}]
+            margins = []
+            for i in range(1, n_steps):
+                prev = steps[-1]['case']
+                n = dict(prev)
+                back = (i == n_steps - 1 and n_steps > 2 and rng.chance(0.4))
+                src = steps[0]['case'] if back else None       # A -> B -> A: back to exactly the first value
+                if param in ('noise', 'pe'):
+                    n[param] = src[param] if back else self.close_real(prev[param], closeness)
+                elif param in ('pl', 'ple'):
+                    n[param] = src[param] if back else [[self.close_real(x, closeness) for x in r] for r in prev[param]]
+                elif param == 'P':
+                    n['P'] = src['P'] if back else [self.close_real(x, closeness) for x in prev['P']]
+                    if scalar_P:
+                        n['P'] = [n['P'][0]] * K
+                elif param == 'big':
+                    n['big'] = src['big'] if back else enc(self.close_complex(dec(prev['big']), closeness))
+                elif param == 'F':
+                    for f in ('F', 'FJ'):
+                        n[f] = src[f] if back else [enc(self.close_complex(dec(x), closeness)) for x in prev[f]]
+                else:
+                    n['U'] = src['U'] if back else [enc(self.close_complex(dec(x), closeness)) for x in prev['U']]
+                sol = {'P': rng.choice(['P', 'precoders']), 'F': 'precoders', 'U': 'filters',
+                       'noise': 'untouched', 'pe': 'untouched'}.get(param) or rng.choice(['sync', 'untouched'])
+                order = ['ic', 'jp', 'sol']
+                rng.shuffle(order)
+                steps.append({'case': n, 'ops': {'real': 'init' if param == 'big' else 'keep', 'seed': 0,
+                                                 'pl': 'set' if param in ('pl', 'ple') else 'keep',
+                                                 'noise': 'set' if param == 'noise' else 'keep', 'post': False,
+                                                 'sol': sol, 'order': order, 'layout': 'same'}})
+                solver_side = param == 'P'
+                margins.append(fp_margin(sinr_fp(prev, 'ic', solver_side), sinr_fp(n, 'ic', solver_side)))
+            if closeness in ('ulp', 'dec12') or min(margins) >= 30.0:
+                break
+        else:
+            raise core.Infra('R15 generator: no scenario in which %s (%s) matters' % (param, closeness))
+        for st in steps:
+            st['ops'].update({'reject': [], 'query': [], 'setter_order': ['pl', 'noise', 'post'], 'derive': None,
+                              'repeat': False, 'sol2': False})
+            if param == 'pe':
+                # the external power is an ARGUMENT of the calc_* calls: nothing may come between the call with one
+                # value and the call with the close one (the solver asks the channel object for its covariance at
+                # the default power, which would flush a "last value" memo)
+                st['ops']['no_sol2'] = True
+                st['ops']['order'] = ['sol', 'ic', 'jp'] if st is steps[0] else [w for w in st['ops']['order'] if w != 'sol']
+        return {'ext': bool(ext), 'kind': 'gauss', 'steps': steps, 'r15': [param, closeness],
+                'margin': min(margins) if margins else 0.0, 'scalar_P': bool(scalar_P)}
+
+    # ---------------------------------------------------------------- R16: the caller's buffers, one object in two roles
+    def buffer_session(self, ext=None, flavour=0):
+        """a session whose steps all have the SAME layout, so that every buffer of the caller (channel matrix, path
+        loss, precoders, filters, powers, …) is refilled in place with other contents for every call.  `flavour`
+        1 / 2: integer / real element type (what the code converts — and could remember converted — before use).
+        Every session contains a step in which the object is left exactly as it is and ONLY the arguments of the
+        calc_* calls get new contents, with nothing else called in between (a memo of the last call keyed on the
+        identity of its arguments would be flushed by any other call)."""
+        rng = self.rng
+        sess = self.session(n_steps=1, ext=ext, kind='rint' if flavour else None)
+        first = sess['steps'][0]
+        first['ops']['real'] = 'init'
+        first['ops']['order'] = ['sol', 'ic', 'jp']
+        first['ops']['no_sol2'] = True
+        if flavour:
+            first['case']['dtype'] = 'int' if flavour == 1 else 'float'
+        if first['case']['big'] is None:
+            first['case']['big'] = self.case(kind=sess['kind'], ext=sess['ext'], K=first['case']['K'],
+                                             dims=(first['case']['Nr'], first['case']['Nt'], first['case']['Ns']),
+                                             NtE=first['case']['NtE'])['big']
+        prev = first['case']
+        first_mode = rng.below(3)
+        for i in range(3):
+            c = self.case(kind=sess['kind'], ext=sess['ext'], solver_ok=True, K=prev['K'],
+                          dims=(prev['Nr'], prev['Nt'], prev['Ns']), NtE=prev['NtE'])
+            c['dtype'] = prev['dtype']
+            c['as_list'] = prev.get('as_list')
+            if i % 2 == 0:      # the power vector as an array (a list or a scalar is not a buffer)
+                c['P'] = [float(rng.choice([0.25, 1.0, 4.0, 2.25, 9.0])) for _ in range(c['K'])]
+                c['ptype'] = rng.choice(['float', 'np.float32'])
+            if c['pl'] is None:
+                c['pl'] = [[rng.choice(SQUARES) for _ in range(c['K'])] for _ in range(c['K'])]
+                c['ple'] = [[rng.choice(SQUARES) for _ in c['NtE']] for _ in range(c['K'])]
+            # what the caller hands over again in this step: only the arguments of the calc_* calls (the object
+            # is left exactly as it is), everything, or some of it
+            mode = ['args-only', 'all', 'mixed'][(first_mode + i) % 3]
+            real = {'args-only': 'keep', 'all': 'init'}.get(mode) or rng.choice(['keep', 'init'])
+            pl = {'args-only': 'keep', 'all': 'set'}.get(mode) or rng.choice(['keep', 'set'])
+            noise = {'args-only': 'keep', 'all': 'set'}.get(mode) or rng.choice(['keep', 'set'])
+            if real == 'keep':
+                c['big'] = prev['big']
+            if pl == 'keep':
+                c['pl'], c['ple'] = prev['pl'], prev['ple']
+            if noise == 'keep':
+                c['noise'], c['ntype'] = prev['noise'], prev.get('ntype')
+            if mode == 'args-only' or (mode == 'mixed' and rng.chance(0.5)):
+                c['pe'], c['petype'] = prev['pe'], prev.get('petype')      # the scalar arguments stay as well
+            sol = ['sync', 'precoders', 'filters', 'untouched', 'P'][(i + rng.below(5)) % 5]
+            if mode == 'args-only' and sol in ('untouched', 'P'):
+                sol = rng.choice(['sync', 'precoders', 'filters'])
+            keep = {'sync': (), 'untouched': ('F', 'U', 'P', 'ptype', 'set_W'), 'P': ('F', 'U', 'set_W'),
+                    'precoders': ('U', 'set_W'), 'filters': ('F', 'P', 'ptype')}[sol]
+            for f in keep:
+                c[f] = prev[f]
+            if sol == 'P' and (prev['P'] is None or c['P'] is None):
+                sol = 'sync'        # everything handed over again (precoders and filters with the contents they had)
+            if sol == 'P':
+                c['ptype'] = 'float'    # a double precision array: what the P setter could keep as it is
+            order = ['ic', 'jp']
+            rng.shuffle(order)
+            if mode != 'args-only':     # the solver (it asks the channel object) first, then the calc_* calls
+                order = ['sol'] + order
+            qpool = ['calc_SINR', 'calc_JP_SINR', 'calc_Q', 'calc_JP_Q']
+            sess['steps'].append({'case': c, 'ops': {
+                'real': real, 'seed': 0, 'pl': pl, 'noise': noise, 'post': mode != 'args-only' and rng.chance(0.5),
+                'sol': sol, 'order': order, 'layout': 'same', 'reject': [], 'mode': mode, 'no_sol2': True,
+                'query': [] if mode == 'args-only' else [rng.choice(qpool) for _ in range(rng.choice([0, 1, 2]))],
+                'setter_order': ['pl', 'noise', 'post'], 'derive': None, 'repeat': rng.chance(0.5), 'sol2': False}})
+            prev = c
+        sess['buffers'] = True
+        return sess
+
+    def roles_case(self):
+        """square layouts (Nr = Nt = Ns per user, as many external sources as users): ONE array object can be
+        precoders and filters, Nr and Nt (and NtE), path loss and external path loss"""
+        rng = self.rng
+        self.nroles = getattr(self, 'nroles', -1) + 1
+        K = [1, 2, 2, 3][self.nroles % 4]
+        shared = K > 1 and self.nroles % 3 == 0
+        n = [rng.randint(1, 3)] * K if shared or rng.chance(0.3) else [rng.randint(1, 3) for _ in range(K)]
+        ext = bool(self.nroles % 2)
+        c = self.case(kind=rng.choice(['gauss', 'gint']), ext=ext, K=K, dims=(n, n, n), NtE=n, retype=False)
+        if shared:
+            c['F'] = [c['F'][0]] * K
+        c['U'] = list(c['F'])
+        if K == 1:
+            c['FJ'] = list(c['F'])
+        if c['pl'] is not None and ext:
+            c['ple'] = [list(r) for r in c['pl']]
+        c['P'] = None
+        c['dtype'] = 'complex'
+        c['call'] = 'positional'
+        c['idx'] = 'int'
+        if c['noise'] is None or c['noise'] == 0.0:
+            if K == 1 and not ext:
+                c['noise'] = 0.5
+        c['shared_user_array'] = bool(shared)
+        return c
+
+    def session(self, n_steps=None, ext=None, kind=None):
         """the life of one channel object (+ one solver): 2..6 scenarios reached from one another through
         the public API — new realisation (init_from_channel_matrix / randomize, same layout, new antenna
         numbers, new number of users) with the path loss kept / changed / removed, new noise variance (any
@@ -2044,7 +2612,7 @@ class Gen:
         rng = self.rng
         ext = rng.chance(0.5) if ext is None else ext
         n_steps = n_steps or rng.randint(2, 6)
-        kind = rng.choice(['gauss', 'gauss', 'gint', 'wide', 'rint'])
+        kind = kind or rng.choice(['gauss', 'gauss', 'gint', 'wide', 'rint'])
         first = self.case(kind=kind, ext=ext, solver_ok=True)
         dtype = first['dtype']
 
@@ -2318,9 +2886,11 @@ def settle(ctx, jobs, lines, prefix=''):
     out_lines = []
     for s in range(0, len(lines), 2000):
         out_lines += drv.ask(lines[s:s + 2000])
-    for (what, i, case, got, q), reply in zip(jobs, out_lines):
-        key = case_key(case, i) + (prefix,)
-        tag = prefix + variant_tag(case)
+    for job, reply in zip(jobs, out_lines):
+        what, i, case, got, q = job[:5]
+        pfx = job[5] if len(job) > 5 else prefix
+        key = case_key(case, i) + (pfx,)
+        tag = pfx + variant_tag(case)
         parts = reply.split('|')
         if reply == 'bad-op':
             ctx.corr(what + ':driver', case, 'request understood', 'bad-op', key=key + (what,))
@@ -2359,12 +2929,30 @@ def corr_sessions(ctx, sessions):
     """the long-lived objects against the (stateless) model: after every step the model is given the
     CURRENT inputs only"""
     jobs, lines = [], []
+
+    def job(what, where, case, got, q, line):
+        jobs.append((what, where, case, got, q, pfx))
+        lines.append(line)
     for si, sess in enumerate(sessions):
         try:
             recs = run_session(sess)
         except Exception as e:      # the oracle reports it with the input
             ctx.branch('session:exception:' + type(e).__name__)
             continue
+        pfx = 'session:'
+        if sess.get('r15'):         # R15: the steps differ by a close-but-distinct value of one parameter
+            pfx = 'R15:%s:%s:session:' % tuple(sess['r15'])
+            ctx.branch('corr:R15')
+            ctx.branch('R15:%s:%s' % tuple(sess['r15']))
+            if sess.get('margin', 0.0) >= 30.0:
+                ctx.branch('R15:%s:%s:reports-differ-by>=30-tolerances' % tuple(sess['r15']))
+            if sess.get('scalar_P'):
+                ctx.branch('R15:%s:one-power-for-all-users' % sess['r15'][0])
+        elif sess.get('buffers'):   # R16: the caller's own buffers, refilled in place
+            pfx = 'R16:session:'
+            ctx.branch('corr:R16')
+            for role, n in ((recs[-1].get('pool') or {}).get('refilled') or {}).items():
+                ctx.branch('R16:buffer-refilled-in-place:' + role, n)
         for i, rec in enumerate(recs):
             c, ops = rec['case'], rec['ops']
             ctx.branch('session:%s/%s' % (ops['real'], ops['pl']))
@@ -2386,15 +2974,14 @@ def corr_sessions(ctx, sessions):
                 ctx.branch('R13:' + cr['how'])
                 ctx.branch('corr:R13')
                 for what in ('ic', 'jp'):
-                    jobs.append((what, (si, i, 'child'), cr['case'], cr[what][0], cr[what][1]))
-                    lines.append(chan_line(cr['case'], what == 'jp'))
+                    job(what, (si, i, 'child'), cr['case'], cr[what][0], cr[what][1], chan_line(cr['case'], what == 'jp'))
                 if isinstance(cr.get('sol'), dict):
-                    jobs.append(('solver', (si, i, 'child'), cr['case'], cr['sol'], None))
-                    lines.append(solver_line(cr['case'], cr['sol']['full_W_H']))
+                    job('solver', (si, i, 'child'), cr['case'], cr['sol'], None,
+                        solver_line(cr['case'], cr['sol']['full_W_H']))
             if isinstance(rec.get('sol2'), dict):
                 ctx.branch('R7:second-solver')
-                jobs.append(('solver', (si, i, 2), rec['case2'], rec['sol2'], None))
-                lines.append(solver_line(rec['case2'], rec['sol2']['full_W_H']))
+                job('solver', (si, i, 2), rec['case2'], rec['sol2'], None,
+                    solver_line(rec['case2'], rec['sol2']['full_W_H']))
             if rec.get('moved'):
                 ctx.corr('session:R3:earlier-output-unchanged', c, 'unchanged', 'changed: %s' % rec['moved'][:3])
             for rj in rec.get('rejected', []):
@@ -2405,13 +2992,15 @@ def corr_sessions(ctx, sessions):
                 ctx.branch('noise-type:' + (c.get('ntype') or 'float'))
             if rec.get('abort'):
                 continue
+            if rec.get('stored') is not None:       # R15: the value the object holds is the value it was given
+                bad = stored_mismatch(c, rec['stored'], sess['ext'])
+                ctx.corr(pfx + 'setter-takes-the-value', c, 'stored = given', 'stored = given' if bad is None else bad[1],
+                         key=(pfx, si, i, 'stored'))
             for what in ('ic', 'jp'):
-                jobs.append((what, (si, i), c, rec[what][0], rec[what][1]))
-                lines.append(chan_line(c, what == 'jp'))
+                job(what, (si, i), c, rec[what][0], rec[what][1], chan_line(c, what == 'jp'))
             o = rec.get('sol')
             if isinstance(o, dict):
-                jobs.append(('solver', (si, i), c, o, None))
-                lines.append(solver_line(c, o['full_W_H']))
+                job('solver', (si, i), c, o, None, solver_line(c, o['full_W_H']))
     settle(ctx, jobs, lines, prefix='session:')
 
 
@@ -2607,11 +3196,29 @@ def gen_sessions(ctx, n):
     return [g.session() for _ in range(n)]
 
 
-def oracles(ctx, cases, sessions=(), bigk=()):
+def oracles(ctx, cases, sessions=(), bigk=(), roles=()):
     for i, sess in enumerate(sessions):
-        run_oracle(ctx, 'session', sess, key=('session', i, sess['ext'], sess['kind'], len(sess['steps'])))
+        call = 'close-values' if sess.get('r15') else 'argument-buffers' if sess.get('buffers') else 'session'
+        run_oracle(ctx, call, sess, key=(call, i, sess['ext'], sess['kind'], len(sess['steps'])))
         for r in ('R3', 'R4', 'R7', 'R11', 'R13'):
             ctx.branch('oracle:' + r)
+        if sess.get('r15'):
+            ctx.branch('oracle:R15')
+            ctx.branch('oracle:R15:%s:%s' % tuple(sess['r15']))
+        elif sess.get('buffers'):
+            ctx.branch('oracle:R16')
+            ctx.branch('oracle:R16:caller-buffers')
+    for i, case in enumerate(roles):
+        run_oracle(ctx, 'argument-roles', case, key=case_key(case, i) + ('roles',))
+        ctx.branch('oracle:R16')
+        ctx.branch('oracle:R16:one-object-two-roles')
+        ctx.branch('R16:one-object-as-F-and-U' + (':JP' if case['K'] == 1 else ''))
+        if case.get('shared_user_array'):
+            ctx.branch('R16:one-array-for-every-user')
+        if case['ext']:
+            ctx.branch('R16:one-object-as-Nr-Nt-NtE')
+            if case['pl'] is not None:
+                ctx.branch('R16:one-object-as-pathloss-and-ext-pathloss')
     for i, case in enumerate(cases):
         key = case_key(case, i)
         if case.get('rclass'):
@@ -2654,6 +3261,10 @@ def check(ctx):
                 'repeated calls and a second solver on the same channel object (R7), and watch earlier results (R3). '
                 'Robustness scenarios R1 (narrow element types), R2 (memory layouts, 0-d, zero streams), R5 '
                 '(boundary values), R6 (extreme scales), each also through the immutability oracle (R3). '
+                'R15 sessions: one object, one parameter moved between close-but-distinct values (tiny / relative 1e-6 / '
+                'adjacent doubles / 12 equal decimals), scenario scaled so that consecutive first-principles reports '
+                'differ by >= 30 tolerances. R16: every third session and same-layout sessions with the caller\'s own '
+                'buffers refilled in place; one array object in two roles. '
                 'non-trivial = distinct (layout, class '
                 'of channel object, generator kind, noise kind, path-loss presence, index, code path)')
     quick = ctx.tier == 'quick'
@@ -2686,13 +3297,39 @@ def check(ctx):
                             ['R11:' + q for q in QUERIES + QUERIES_EXT] + ['noise-type:' + t for t in NUMTYPES] + \
                             ['pe-type:' + t for t in NUMTYPES] + \
                             ['P-type:' + t for t in ('float', 'int', 'np.int32', 'np.float32', 'list', 'scalar:int',
-                                                     'scalar:float', 'scalar:np.float32', 'scalar:np.int64')]
+                                                     'scalar:float', 'scalar:np.float32', 'scalar:np.int64')] + \
+                            ['corr:R15', 'oracle:R15', 'corr:R16', 'oracle:R16', 'oracle:R16:caller-buffers',
+                             'oracle:R16:one-object-two-roles', 'R16:one-object-as-F-and-U',
+                             'R16:one-object-as-F-and-U:JP', 'R16:one-array-for-every-user',
+                             'R16:one-object-as-Nr-Nt-NtE', 'R16:one-object-as-pathloss-and-ext-pathloss'] + \
+                            ['R15:%s:%s' % k for k in R15_KINDS] + ['oracle:R15:%s:%s' % k for k in R15_KINDS] + \
+                            ['R15:%s:%s:reports-differ-by>=30-tolerances' % k for k in R15_KINDS
+                             if k[1] in ('tiny', 'rel1e-6')] + \
+                            ['R16:buffer-refilled-in-place:' + r for r in R16_ROLES] + \
+                            ['R15:F:one-power-for-all-users', 'R15:P:one-power-for-all-users']
     cases = corpus_cases() + gen_cases(ctx, 300 if quick else 3000) + gen_rcases(ctx, 40 if quick else 400)
     gb = Gen(ctx.rng.fork('bigk'), ctx.tier)
     bigk = [gb.bigk_case(ext=bool((i + ctx.seed) % 2)) for i in range(1 if quick else 6)]
     if not quick:
         cases += layout_sweep(ctx)
     sessions = corpus_sessions() + gen_sessions(ctx, 130 if quick else 1000)
+    # R16: every third of those lives again … with the caller keeping ONE buffer per argument (same histories,
+    # same contents, but always the same array objects); plus sessions whose layout never changes, so that every
+    # buffer is refilled for every call
+    for i, sess in enumerate(sessions):
+        if i % 3 == 2:
+            sess['buffers'] = True
+    gs = Gen(ctx.rng.fork('r15r16'), ctx.tier)
+    sessions += [gs.buffer_session(ext=bool(i % 2), flavour=(i // 2) % 3) for i in range(12 if quick else 60)]
+    # R15: one object taken through close-but-distinct values of ONE parameter
+    for rep in range(1 if quick else 4):
+        for param, closeness in R15_KINDS:
+            # (precoders, powers: also with one power for all users — the scalar branch of the P setter, and
+            # set_precoders(F=…) without a power vector)
+            for scalar_P in ((False, True) if param in ('F', 'P') else (bool(rep % 2),)):
+                sessions.append(gs.r15_session(param, closeness, n_steps=3 if quick else gs.rng.randint(3, 4),
+                                               scalar_P=scalar_P, deep=(rep % 3 != 1)))
+    roles = [gs.roles_case() for _ in range(12 if quick else 120)]
     try:
         correspondence(ctx, cases)
         corr_sessions(ctx, sessions)
@@ -2703,13 +3340,16 @@ def check(ctx):
             raise
         ctx.notes.append('correspondence skipped: %s' % e)
         ctx.required_branches = []
-    oracles(ctx, cases, sessions, bigk)
+    oracles(ctx, cases, sessions, bigk, roles)
 
 
 def search(ctx):
     """deeper failing-input search, used when a proof / correspondence broke"""
     before = len(ctx.failures)
+    g = Gen(ctx.rng.fork('search'), ctx.tier)
     for _ in range(4):
-        oracles(ctx, gen_cases(ctx, 400), gen_sessions(ctx, 100))
+        sessions = gen_sessions(ctx, 100) + [g.buffer_session(flavour=i_ % 3) for i_ in range(30)] + \
+            [g.r15_session(p_, c_, scalar_P=g.rng.chance(0.5)) for p_, c_ in R15_KINDS]
+        oracles(ctx, gen_cases(ctx, 400), sessions, roles=[g.roles_case() for _ in range(40)])
         if len(ctx.failures) > before:
             return
